@@ -186,6 +186,7 @@ type storeEnv struct {
 	optLo, optHi      uint64 // an additional range of such ids (from an earlier crash)
 	crashDepth        int    // number of crashes this store directory went through
 	wideKeys          int    // > 0: number of extra keys to draw from
+	compactBias       bool   // maintenance favours index compaction
 }
 
 func (e *storeEnv) valueOptional(id uint64) bool {
@@ -517,11 +518,11 @@ func (e *storeEnv) verifyIndex(what string, n uint64) {
 	r := e.r
 	st := e.st
 	ctx := context.Background()
-	wctx, cancel := context.WithTimeout(ctx, 30*time.Minute) // simulated time
+	wctx, cancel := context.WithTimeout(ctx, 2*time.Minute) // simulated time
 	werr := st.WaitForIndexingUpto(wctx, n)
 	cancel()
 	if werr != nil {
-		e.idxViol("index-wait", "%s: indexing did not catch up with tx %d within 30 simulated minutes: %v", what, n, werr)
+		e.idxViol("index-wait", "%s: indexing did not catch up with tx %d within 2 simulated minutes: %v", what, n, werr)
 	}
 	model, keys := e.kvModel(n, nil)
 	now := time.Now()
